@@ -27,7 +27,7 @@ CONF = {
     "C12": dict(universes=["core", "c12x", "c10", "c11", "c12y"], probes=True, extra=True),
     "C16": dict(universes=["core", "c16", "c11"], probes=True, extra=True),
     "C17": dict(universes=["core", "c18", "c09", "c09b", "c09c", "qv", "c09d", "c18b"], probes=True, extra=False),
-    "C18": dict(universes=["c18", "core", "c18b"], probes=True, extra=True),
+    "C18": dict(universes=["c18", "core", "c18b", "c18c"], probes=True, extra=True),
 }
 
 SIZES = {
